@@ -200,6 +200,8 @@ def _execute(program, stats, hist):
                             break            # inside quadratic CVaR on a constant float32 sample): not a cash()/price() matter
             except Exception:
                 finite = True
+            if ck in DEFAULT_SEARCH and "max_iter" in repr(e):
+                finite = False   # the search precision 1e-6 is below one ulp at this P&L magnitude: termination of bisect is C19
             if not finite:
                 stats.ambiguous_skipped += 1
                 hist.add(op="price", quoted="non-finite sample")
@@ -318,6 +320,8 @@ def _execute(program, stats, hist):
                             break
             except Exception:
                 unevaluable = False
+            if ck in DEFAULT_SEARCH and "max_iter" in repr(e):
+                unevaluable = True
             if unevaluable:
                 stats.ambiguous_skipped += 1
                 hist.add(op="price", quoted=thash(quoted), shifted="criterion cannot evaluate the shifted sample")
@@ -327,7 +331,9 @@ def _execute(program, stats, hist):
         stats.checks += 1
         scale = max(abs(float(quoted)), abs(float(shifted)), abs(k), max(float(s.abs().max()) for s in samples))
         tol = 64 * eps * scale + (4e-6 if ck in DEFAULT_SEARCH else 0.0) + (1e-5 if ck == "QuadraticCVaR" else 0.0) * max(1.0, scale)
-        if not abs((float(shifted) - float(quoted)) - k) <= tol:
+        if not (scale == scale and scale != float("inf")):
+            stats.ambiguous_skipped += 1   # a quote that overflowed the dtype (exp of hundreds): not a shift-equivariance matter
+        elif not abs((float(shifted) - float(quoted)) - k) <= tol:
             raise Violation(ID, "shift_equivariance", site, dict(cfg, price=float(quoted), price_shifted=float(shifted), k=k, tol=tol), seq)
         # ---- 5. F3: a fresh clone quotes the same price
         if op.get("clone"):
@@ -365,7 +371,15 @@ def _cash_checks(crit, ck, pl, kind, dtype, cfg, stats, seq):
             val = crit(pl)
             shape = val.shape
     except Exception as e:
+        if ck in DEFAULT_SEARCH and "max_iter" in repr(e):
+            stats.ambiguous_skipped += 1   # search precision below one ulp at this magnitude: termination of bisect is C19
+            return
         raise Violation(ID, "op_raised", "%s:%s" % (site, type(e).__name__), dict(cfg, error=repr(e)[:300], sample=pl), seq)
+    if not bool(torch.isfinite(val).all()) or not bool(torch.isfinite(cash).all()):
+        # exp(-a x) overflows the dtype for a sample this large (P&L of minus hundreds in float32): the criterion of the sample
+        # itself is not a number, there is nothing to be equivalent to
+        stats.ambiguous_skipped += 1
+        return
     stats.probe("cash_certainty_equivalent")
     stats.checks += 4
     if tuple(cash.shape) != tuple(shape):
